@@ -548,6 +548,8 @@ def check_dynamic(ctx, w, idx, u):
 FOREIGN_SRC = '''void out_l(long);
 _Bool gb(int); signed char gc(int); unsigned char guc(int); short gs(int); unsigned short gus(int);
 _Bool (*fpb[2])(int) = { gb, gb };
+double dd(double x) { return x; }
+float rf(void) { return gs(0); }
 int main(void)
 {
 	int n = 0;
@@ -562,6 +564,7 @@ int main(void)
 	out_l(gc(0)); out_l(gc(0) < 0); out_l(guc(0)); out_l(guc(0) > 200); out_l(gs(0)); out_l(gs(0) == -2); out_l(gus(0)); out_l(gus(0) + 1L);
 	out_l((long)gc(0) * 2); out_l(gb(1) + gb(1)); out_l(gb(1) == 1); out_l(!gb(0) + (gb(0) || gb(1)));
 	switch (gc(0)) { case -1: out_l(77); break; default: out_l(78); }
+	out_l((long)((double)gs(0) * 2)); out_l((long)(float)gus(0)); out_l((long)(gs(0) + 0.5)); out_l((long)dd(gs(0))); out_l((long)rf()); out_l((long)(float)gc(0)); out_l((long)(guc(0) * 1.0f));
 	return 0;
 }
 '''
@@ -593,7 +596,7 @@ export function w $gus(w %a) {
 }
 '''
 FOREIGN_WANT = ['out_l 40', 'out_l -1', 'out_l 1', 'out_l 201', 'out_l 1', 'out_l -2', 'out_l 1', 'out_l 65535', 'out_l 65536', 'out_l -2', 'out_l 2', 'out_l 1',
-                'out_l 2', 'out_l 77']
+                'out_l 2', 'out_l 77', 'out_l -4', 'out_l 65535', 'out_l -1', 'out_l -2', 'out_l -2', 'out_l -1', 'out_l 201']
 
 
 def foreign_narrow_results(ctx, w):
@@ -811,6 +814,38 @@ def directed(ctx, w):
             n += 1
             if rc != 0 or calls != [want]:
                 report(ctx, '%s: call emitted as %r (rc=%d), the C rules require %r' % (target, calls, rc, want), src, 'c', 'call-signature')
+    # a definition and a call of the same function in one unit must use the same classes; every aggregate class that is used
+    # must have a description (seeded change C08-advb-08-1: an unnamed struct parameter of a definition got class l)
+    agree = [
+        'struct pt { long x, y; }; long pick(struct pt, long n) { return n; } long use(struct pt *p) { return pick(*p, 7); }',
+        'union un { double d; char c[12]; }; int first(union un, int n, union un) { return n; } int use(union un *p) { return first(*p, 7, *p); }',
+        'struct sm { char c; }; struct big { long a[5]; }; int f(struct sm, struct big, double, struct sm s) { return s.c; } int use(struct sm *a, struct big *b) { return f(*a, *b, 1.5, *a); }',
+        'struct pr { float f; int i; }; struct pr mk(struct pr, struct pr b) { return b; } float use(struct pr *p) { return mk(*p, *p).f; }',
+        'struct pt2 { long x, y; }; long vpick(struct pt2, ...) { return 0; } long use(struct pt2 *p) { return vpick(*p, *p, 1); }',
+    ]
+    for src in agree:
+        for target in TARGETS:
+            rc, il, err = ctx.qbe(src, target=target)
+            n += 1
+            if rc != 0:
+                report(ctx, '%s: unit with unnamed aggregate parameters rejected: %s' % (target, err[:160]), src, 'c', 'static-reject')
+                continue
+            types, heads, calls = il_view(il)
+            fm = [FUNC_RE.match(l) for l in il.split('\n')]
+            cm = [CALL_RE.match(l) for l in il.split('\n')]
+            fm = [m for m in fm if m][0]
+            cm = [m for m in cm if m][0]
+            cls = lambda text: ' '.join(x.strip().split(' ')[0] for x in text.split(',') if x.strip())
+            hd = (fm.group(1) or '-', cls(fm.group(2)))
+            cl = (cm.group(1) or '-', cls(cm.group(2)))
+            norm = lambda x: x.split('...')[0].strip() + (' ...' if '...' in x else '')
+            defined = set(parse_type_line(l)[0] for l in types if parse_type_line(l))
+            used = set(re.findall(r':[\w.]+', ' '.join(hd + cl)))
+            if hd[0] != cl[0] or norm(hd[1]) != norm(cl[1]):
+                report(ctx, '%s: the definition takes (%s) returning %s, the call in the same unit passes (%s) expecting %s'
+                       % (target, norm(hd[1]), hd[0], norm(cl[1]), cl[0]), src, 'c', 'definition-call-disagree')
+            elif not used <= defined:
+                report(ctx, '%s: aggregate classes %s are used without a description' % (target, sorted(used - defined)), src, 'c', 'descriptor-missing')
     n += narrow_extension(ctx)
     rc, il, err = ctx.qbe('void f(long double); void g(long double x) { f(x); }')
     n += 1
